@@ -216,18 +216,16 @@ func (f *aggrMinFunc) Update(kv KVPair, args []Expression, ctx *ExecuteCtx) erro
 		f.isFloat = isFloat
 		return nil
 	}
-	if f.isFloat {
-		if f.fmin > fval {
-			f.imin = ival
-			f.fmin = fval
-			f.isFloat = isFloat
-		}
-	} else {
-		if f.imin > ival {
-			f.imin = ival
-			f.fmin = fval
-			f.isFloat = isFloat
-		}
+	// Compare as float when either side is a float, the integer
+	// part alone does not order an integer against a float
+	less := f.imin > ival
+	if f.isFloat || isFloat {
+		less = f.fmin > fval
+	}
+	if less {
+		f.imin = ival
+		f.fmin = fval
+		f.isFloat = isFloat
 	}
 	return nil
 }
@@ -276,18 +274,16 @@ func (f *aggrMaxFunc) Update(kv KVPair, args []Expression, ctx *ExecuteCtx) erro
 		f.isFloat = isFloat
 		return nil
 	}
-	if f.isFloat {
-		if f.fmax < fval {
-			f.imax = ival
-			f.fmax = fval
-			f.isFloat = isFloat
-		}
-	} else {
-		if f.imax < ival {
-			f.imax = ival
-			f.fmax = fval
-			f.isFloat = isFloat
-		}
+	// Compare as float when either side is a float, the integer
+	// part alone does not order an integer against a float
+	greater := f.imax < ival
+	if f.isFloat || isFloat {
+		greater = f.fmax < fval
+	}
+	if greater {
+		f.imax = ival
+		f.fmax = fval
+		f.isFloat = isFloat
 	}
 	return nil
 }
